@@ -1,10 +1,12 @@
 (* C19 — Disassembly text of an instruction assembles back to that instruction.
    Proved at the level of parsed statements: `mnemonic i` / `display_args i addr` are the mnemonic and the
    argument trees of the printed text (DisplayArgs.v); the printed bytes themselves are DisplayModel.display.
-   The tie  text -> tokens -> these trees  is the tokenizer's and parser's (C11, C09) and is exercised on the
+   The tie  text -> tokens -> these trees  is proved through the tokenizer and parser models: by kernel sweep for every
+   16-bit pattern without a PC-relative operand (C19_text_roundtrip16) and, for the PC-relative instructions and ALL label
+   values, through the text level of C09 (C19_text_statement_pcrel, C19_text_roundtrip_pcrel); it is also exercised on the
    real tokenizer/parser/evaluator by the C19 correspondence stream, which assembles every printed text. *)
 From Coq Require Import ZArith NArith List String.
-From Trion Require Import Text.Types Expr.EvalModel Arm.Instr Arm.EncodeModel Arm.DisplayModel Arm.DisplayArgs Arm.AsmStmtModel Arm.AsmStmtProofs Arm.AsmEvalLink Arm.DecodeModel Arm.DecProofs Arm.TextSweep Bin.TextRoundtrip.
+From Trion Require Import Text.Types Expr.EvalModel Arm.Instr Arm.EncodeModel Arm.DisplayModel Arm.DisplayArgs Arm.AsmStmtModel Arm.AsmStmtProofs Arm.AsmEvalLink Arm.DecodeModel Arm.DecProofs Arm.TextSweep Bin.TextRoundtrip Text.Pipeline Arm.TextPcrel.
 Import ListNotations.
 Open Scope N_scope.
 
@@ -32,13 +34,39 @@ Proof. exact stmt_roundtrip_eval. Qed.
 (* down to the printed characters: for EVERY decodable 16-bit pattern whose instruction has no PC-relative operand,
    at every address, the printed text is tokenized (TokenModel), parsed (ParseModel) to one instruction statement,
    its mnemonic found and its operands converted, yielding exactly the decoded instruction (kernel sweep over all
-   2^16 halfwords for the text -> statement step).  PC-relative texts mention an address-dependent label: they are
-   covered by C19_statement_roundtrip_eval at the parsed level and by the correspondence stream on the real code. *)
+   2^16 halfwords for the text -> statement step).  PC-relative texts mention an address-dependent label: see
+   C19_text_roundtrip_pcrel below. *)
 Theorem C19_text_roundtrip16 : forall lk local bs i addr,
   (forall t, t < 4294967296 -> lk (label t) = Found (Z.of_N t)) ->
   bytes_ok bs -> dec bs = DecOk 2 i -> pcrel i = false -> addr < 4294967296 ->
   asm_text lk local addr (display i addr) = Some i.
 Proof. exact text_to_instr16. Qed.
+
+(* the PC-relative instructions (ADR, B, B<cc>, BL, LDR literal), for ALL label values (which no sweep can cover): the printed
+   characters `MNEMONIC [Rd, ]l_XXXXXXXX;` are tokenized (TokenModel) and parsed (ParseModel) to exactly one instruction
+   statement with the mnemonic and argument trees of DisplayArgs.  (The text is an instance of ShowSpec.show; characters ->
+   tokens is ShowProofs.show_tokens, tokens -> statement is C09.) *)
+Theorem C19_text_statement_pcrel : forall i addr, pcrel i = true ->
+  stmt_of_text (display i addr) = Some (mnemonic i, display_args i addr).
+Proof. exact text_roundtrip_pcrel. Qed.
+
+(* ... and from the printed characters back to the instruction: for every encodable PC-relative instruction (BL is 32-bit, so
+   the premise is the encoder's acceptance rather than a 16-bit decode), at every address with the target inside the address
+   space, labels bound as named *)
+Theorem C19_text_roundtrip_pcrel : forall lk local i addr hws,
+  (forall t, t < 4294967296 -> lk (label t) = Found (Z.of_N t)) ->
+  wf_instr i -> enc i = EncOk hws -> pcrel i = true -> addr < 4294967296 -> target_in_space i addr = true ->
+  asm_text lk local addr (display i addr) = Some i.
+Proof. exact text_to_instr_pcrel. Qed.
+
+(* the remaining kinds, the 32-bit instructions without a PC-relative operand (MRS, MSR, DMB, DSB, ISB, UDF.W; text -> statement
+   by kernel sweeps over all register / system register pairs and all 2^16 UDF.W payloads): with C19_text_roundtrip16 and
+   C19_text_roundtrip_pcrel every instruction kind is covered from the printed characters *)
+Theorem C19_text_roundtrip_wide : forall lk local i addr hws,
+  (forall t, t < 4294967296 -> lk (label t) = Found (Z.of_N t)) ->
+  wf_instr i -> enc i = EncOk hws -> wide_plain i = true -> addr < 4294967296 ->
+  asm_text lk local addr (display i addr) = Some i.
+Proof. exact text_to_instr_wide. Qed.
 
 (* the printed label is the architectural target *)
 Theorem C19_label_is_target : forall i addr t, pc_target i addr = Some t ->
@@ -59,5 +87,7 @@ Theorem C19_examples :
   display Sev 0 = bytes_of_string "SEV;"%string /\
   display (Add false R0 R0 (Reg SP)) 0 = bytes_of_string "ADD R0, R0, SP;"%string /\
   display (B Equal (-246)) 0xFFFFFFFC = bytes_of_string "BEQ l_FFFFFF0A;"%string /\
-  display (Ldm R1 0x85) 0 = bytes_of_string "LDM R1, {R0, R2, R7};"%string.
+  display (Ldm R1 0x85) 0 = bytes_of_string "LDM R1, {R0, R2, R7};"%string /\
+  stmt_of_text (display (B Equal (-246)) 0xFFFFFFFC) = Some (bytes_of_string "BEQ"%string, [AIdent (bytes_of_string "l_FFFFFF0A"%string)]) /\
+  stmt_of_text (display (Ldr R3 PC (Imm 8)) 0x20000002) = Some (bytes_of_string "LDR"%string, [AIdent (bytes_of_string "R3"%string); AIdent (bytes_of_string "l_2000000C"%string)]).
 Proof. vm_compute. repeat split. Qed.
